@@ -228,10 +228,25 @@ def offset_base_rule(repo: Repo, rep: Report, rid: str) -> None:
 def restore_rule(repo: Repo, rep: Report, rid: str) -> None:
     rep.rule(rid, "save/restore pairing: the EOF probe puts the stream back where it was on the not-at-EOF path; the dynamic-union re-read rewinds "
                   "to the saved start before reading the extent")
-    fi = repo.func("types/base.py", "_is_eof")
-    from ..folds import fold_is_eof
+    from ..folds import fold_generic_read_array, fold_is_eof
 
-    eof_fold = fold_is_eof(repo)
+    fi = repo.func_opt("types/base.py", "_is_eof")
+    gfold = fold_generic_read_array(repo)
+    if fi is None:
+        # the probe is no longer a function of its own (inlined into its caller): the generic bulk reader folded over stream lengths and positions
+        # decides whether the probe consumes anything
+        rd = repo.func("types/base.py", "MetaType._read_array")
+        if gfold is None:
+            raise AnalysisError("anchor function vanished: types/base.py:_is_eof (and MetaType._read_array is not foldable)")
+        bad = gfold["bad"]
+        rep.check(not bad, rid, f"{rd.key}:eof-probe", f"folded over {gfold['cases']} cases: whole elements to the end of the stream, nothing consumed by the probe",
+                  (f"MetaType._read_array on a stream of {bad[0][0]} bytes at {bad[0][1]} with count {bad[0][2]}: got {bad[0][3]}, stream left at {bad[0][4]}") if bad else "", rd.loc())
+    else:
+        _eof_probe_rule(repo, rep, rid, fi, fold_is_eof(repo))
+    _union_reread_rule(repo, rep, rid)
+
+
+def _eof_probe_rule(repo: Repo, rep: Report, rid: str, fi, eof_fold) -> None:
     g = CFG(fi.node)
     stream = fi.params[0]
     saves = [x for x in g.nodes if x.kind == "stmt" and isinstance(x.ast, ast.Assign) and norm(x.ast.value) == f"{stream}.tell()"]
@@ -254,6 +269,9 @@ def restore_rule(repo: Repo, rep: Report, rid: str) -> None:
     else:
         rep.check(bool(ret_true) and bool(tguard) and all(g.must_pass(probes[0].id, r.id, {t.id for t in tguard}) for r in ret_true), rid, f"{fi.key}:eof-test",
                   "EOF is reported only when the probe did not move the stream", "EOF is reported without comparing the position after the probe with the saved one", fi.loc())
+
+
+def _union_reread_rule(repo: Repo, rep: Report, rid: str) -> None:
     u = repo.func("types/structure.py", "UnionMetaType._read")
     g = CFG(u.node)
     s = u.node.args.args[1].arg
@@ -439,6 +457,22 @@ def absolute_padding_rule(repo: Repo, rep: Report, rid: str) -> None:
     rep.floor(rid, "alignment seek templates", n, 3)
 
 
+def input_predicate_rule(repo: Repo, rep: Report, rid: str) -> None:
+    rep.rule(rid, "what counts as a buffer and what as a stream, folded over 8 kinds of input: exactly bytes / bytearray / memoryview are buffers, anything "
+                  "with read() is a stream - an object that is both (an mmap) must not answer yes to the buffer test, because T(x) and T.read(x) ask the two "
+                  "questions in different orders")
+    from ..folds import fold_input_predicates
+
+    fi = repo.func("types/base.py", "MetaType.read")
+    fold = fold_input_predicates(repo)
+    if fold is None:
+        rep.ok(rid, f"{fi.key}:input-kinds", "predicates not found as module functions or not foldable: the call-form folds decide", fi.loc(), nontrivial=False)
+        return
+    bad = fold["bad"]
+    rep.check(not bad, rid, f"{fi.key}:input-kinds", f"{fold['cases']} (predicate, input kind) cases agree with the reference",
+              (f"{bad[0][0]}({bad[0][1]}) is {bad[0][2]}, expected {bad[0][3]}: the call forms no longer agree on how this input is parsed") if bad else "", fi.loc())
+
+
 def run(repo: Repo, rep: Report, tier: str) -> None:
     from .compiled import compiled_fold_rule, shape_rule
 
@@ -471,3 +505,9 @@ def run(repo: Repo, rep: Report, tier: str) -> None:
     from .c08 import meta_call_rule
 
     meta_call_rule(repo, rep, "C09.R17")
+    from .c04 import layout_fold_rule
+    from .share import share_rules
+
+    layout_fold_rule(repo, rep, "C09.R18", 3 if tier == "thorough" else 2)
+    share_rules(repo, rep, tier, "c08", {"C08.R1": "C09.R19"}, "a read that some stream kinds refuse (or answer differently) makes the result depend on the kind of input")
+    input_predicate_rule(repo, rep, "C09.R20")
